@@ -67,6 +67,12 @@ def run(ctx):
     # a last-start-tag with upper-case ASCII can never come from the tokenizer: outside the property's domain
     spec_cases = [c for c in spec_cases if c[1] is None or c[1] == spec_corr._ascii_lower(c[1])]
     spec_cases += [("dataState", None, True, "<![CDATA[\x00]]>"), ("rcdataState", "\u212a", False, "</K >")]   # recorded findings
+    # named references whose prefix walk runs past a legacy name, in attribute values and text
+    for w in ("noti", "notin", "copys", "lti", "gtc", "degr", "ampx", "paralle", "notit;"):
+        for term in ('"', " ", ">", "&", "=", "x", "1", ";", ""):
+            spec_cases.append(("dataState", None, False, '<a t="x&%s%s y">' % (w, term if term != '"' else "")))
+            spec_cases.append(("dataState", None, False, "<a t=&%s%s>" % (w, term if term not in (">", " ") else "")))
+            spec_cases.append(("dataState", None, False, "&%s%s" % (w, term)))
     with Pool(os.cpu_count()) as pool:
         real_lines = pool.map(spec_corr.real_canon, spec_cases, chunksize=500)
     spec_lines = lean.run_driver([tok_corr.req("spec-tok", c) for c in spec_cases])
